@@ -30,6 +30,7 @@ type SpecEnv struct {
 	inOld     bool
 	depth     int
 	unfolding []string
+	allocMark *Term // callee contract applied at a call site: the allocation mark at the call (what fresh() is relative to)
 }
 
 // untyped integer constant in spec expressions (adapts to the other operand)
@@ -1163,7 +1164,11 @@ func (c *Ctx) specCall(env *SpecEnv, e *SExpr) Value {
 			if c.alloc0 == nil {
 				specError("fresh() outside a function contract")
 			}
-			return Or(Eq(s.Ref, IntC(0)), Cmp(">=", s.Ref, c.alloc0, true))
+			mark := c.alloc0
+			if env.allocMark != nil {
+				mark = env.allocMark
+			}
+			return Or(Eq(s.Ref, IntC(0)), Cmp(">=", s.Ref, mark, true))
 		case "isMethodValue":
 			// isMethodValue(f, "name"): the function value f is the method value x.name (a bound-method closure)
 			if len(e.Args) != 3 || e.Args[2].Kind != "str" {
